@@ -11,6 +11,7 @@ import (
 	"path/filepath"
 	"sort"
 	"strconv"
+	"strings"
 	"sync"
 )
 
@@ -223,6 +224,16 @@ type Replay struct {
 	Part     string          `json:"part"`
 	Error    string          `json:"error"`
 	Case     json.RawMessage `json:"case"`
+	// Env lists environment variables (NAME=value) that were set for the run in which the case failed
+	// because the code under test consults them; the driver sets them again for a replay.
+	Env []string `json:"env,omitempty"`
+}
+
+func extraEnv() []string {
+	if v := os.Getenv("VERIF_EXTRA_ENV"); v != "" {
+		return strings.Split(v, "\x1f")
+	}
+	return nil
 }
 
 var replayMu sync.Mutex
@@ -235,7 +246,7 @@ func WriteReplay(id, part string, c any, cause error) string {
 	defer replayMu.Unlock()
 	b, err := json.Marshal(c)
 	must(err)
-	rp := Replay{Property: id, Part: part, Error: cause.Error(), Case: b}
+	rp := Replay{Property: id, Part: part, Error: cause.Error(), Case: b, Env: extraEnv()}
 	out, _ := json.MarshalIndent(rp, "", " ")
 	dir := env.Out
 	if dir == "" {
@@ -256,4 +267,25 @@ func LoadReplay() (Replay, bool) {
 	var rp Replay
 	must(json.Unmarshal(b, &rp))
 	return rp, true
+}
+
+// Inflight stores the case that is about to run as VERIF_OUT/inflight-<ID>-<part>-<shard>.json and
+// returns the function that removes the file again. If the test process dies while the case runs
+// (an unrecoverable runtime fatal error such as "concurrent map writes" in the code under test), the
+// driver finds the file and reports the case as the violation's replay.
+func Inflight(id, part string, c any) func() {
+	if env.Out == "" {
+		return func() {}
+	}
+	b, err := json.Marshal(c)
+	if err != nil {
+		return func() {}
+	}
+	rp := Replay{Property: id, Part: part, Error: "the test process died while this case was running (see the worker output for the runtime's fatal error)", Case: b}
+	out, _ := json.MarshalIndent(rp, "", " ")
+	p := filepath.Join(env.Out, fmt.Sprintf("inflight-%s-%s-%d.json", id, part, env.Shard))
+	if os.WriteFile(p, out, 0o644) != nil {
+		return func() {}
+	}
+	return func() { os.Remove(p) }
 }
